@@ -56,7 +56,9 @@ def scenario_inputs(rng, itype, scen, random_shape=False):
         # far from the prediction: no overlap, hence no match; for matched input use labels absent from pred
         idx = [slice(-1, None)] * ref.ndim
         idx[-1] = slice(shape[-1] - 2, shape[-1])
-        ref[tuple(idx)] = 5 if itype != "semantic" else 1
+        # reference label values are arbitrary (sparse, not starting at 1): fresh labels of unmatched predictions must avoid them
+        lab = 1 if itype == "semantic" else (5 if not random_shape else rng.choice([2, 3, 4, 5, 6] if itype == "unmatched" else [3, 4, 5, 6]))
+        ref[tuple(idx)] = lab
     return pred, ref
 
 
@@ -194,6 +196,45 @@ def run(ctx):
             pred, ref = scenario_inputs(rng, it, sc)
             check_case(ctx, it, sc, table, std, pred, ref, None, ev=ev, im=im,
                        extra={"coexisting": spec, "index": j, "default_constructed": kind == "default"})
+    # a single-instance class group whose label is missing in the prediction, the reference or both: the zero-instance scenarios
+    # apply to it exactly as to any group (fp / fn are the instance counts 0 or 1, sq the handler's entry)
+    from panoptica.utils.segmentation_class import SegmentationClassGroups
+    from panoptica.utils.label_group import LabelGroup
+    for _ in range(ctx.scale(18, 150)):
+        it = rng.choice(["unmatched", "semantic", "matched"])
+        sc = rng.choice(["NO_INSTANCES", "EMPTY_PRED", "EMPTY_REF"])
+        table = {m: [rng.randrange(5) for _ in range(4)] for m in impl.METRICS}
+        std = rng.randrange(5)
+        shape = (6, 10)
+        pred = np.zeros(shape, np.uint8); ref = np.zeros(shape, np.uint8)
+        ref[4:6, 6:9] = 2; pred[4:6, 6:8] = 2                               # the other group always has a (matched) instance
+        if sc in ("EMPTY_REF",):
+            pred[0:2, 0:3] = 1
+        if sc in ("EMPTY_PRED",):
+            ref[0:2, 0:3] = 1
+        groups = SegmentationClassGroups({"organ": LabelGroup(1, single_instance=True), "lesion": LabelGroup([2, 3])})
+        cfg = {"input": it, "imetrics": IM, "gmetrics": [], "table": table, "std": std, "groups": groups}
+        out = impl.evaluate(impl.make_evaluator(cfg), pred.copy(), ref.copy())
+        case = {"input": it, "scenario": sc, "table": table, "std": std, "pred": pred, "ref": ref, "single_instance_group": True}
+        ctx.count({"single_instance_group": sc, "input": it, "table": table["IOU"], "std": std}, True)
+        ctx.bump(f"single-instance group/{it}/{sc}")
+        if isinstance(out, tuple):
+            ctx.violation("zero-TP evaluation of a single-instance group raised", {**case, "observed": out})
+            continue
+        r = impl.canon_result(out["organ"][0])
+        si = SCEN.index(sc)
+        npi, nri = int(sc == "EMPTY_REF"), int(sc == "EMPTY_PRED")
+        bad = []
+        if r.get("tp") != 0 or r.get("fp") != npi or r.get("fn") != nri:
+            bad.append(f"tp={r.get('tp')} fp={r.get('fp')} fn={r.get('fn')} but the group has {npi} predicted / {nri} reference instance(s)")
+        for m in IM:
+            e = r["metrics"].get(m, {})
+            if "sq" not in e or not impl.same_float(e.get("sq"), expected_value(table[m][si])):
+                bad.append(f"sq[{m}]={e.get('sq', 'absent')} expected {impl.ECR[table[m][si]]}")
+            if "std" not in e or not impl.same_float(e["std"], expected_value(std)):
+                bad.append(f"std[{m}]={e.get('std', 'absent')} expected {impl.ECR[std]}")
+        if bad:
+            ctx.violation("single-instance group in a zero-TP scenario differs from the handler's prescription: " + "; ".join(bad[:4]), {**case, "observed": r})
     # default handler (constructed without arguments) on every scenario: ties Gen default table to behaviour
     for (it, sc), (pred, ref) in reps.items():
         res = check_case(ctx, it, sc, {m: list(v) for m, v in impl.DEFAULT_TABLE.items()}, 1, pred, ref, None)
@@ -232,6 +273,22 @@ def replay(path):
     d = json.loads(open(path).read())
     pred, ref = common.arr_from_json(d["pred"]), common.arr_from_json(d["ref"])
     cfg = {"input": d["input"], "imetrics": d.get("imetrics") or IM, "gmetrics": [], "table": d.get("table") or d.get("table1"), "std": d.get("std", 1)}
+    if d.get("single_instance_group"):
+        from panoptica.utils.segmentation_class import SegmentationClassGroups
+        from panoptica.utils.label_group import LabelGroup
+        groups = SegmentationClassGroups({"organ": LabelGroup(1, single_instance=True), "lesion": LabelGroup([2, 3])})
+        out = impl.evaluate(impl.make_evaluator({**cfg, "groups": groups}), pred, ref)
+        if isinstance(out, tuple):
+            print("evaluation raised:", out)
+            return 1
+        r = impl.canon_result(out["organ"][0])
+        si = SCEN.index(d["scenario"])
+        print("group organ:", {k: r.get(k) for k in ("tp", "fp", "fn")}, {m: r["metrics"].get(m, {}).get("sq") for m in IM})
+        print("prescribed sq:", {m: impl.ECR[cfg["table"][m][si]] for m in IM})
+        npi, nri = int(d["scenario"] == "EMPTY_REF"), int(d["scenario"] == "EMPTY_PRED")
+        ok = r.get("tp") == 0 and r.get("fp") == npi and r.get("fn") == nri and all(
+            impl.same_float(r["metrics"].get(m, {}).get("sq"), expected_value(cfg["table"][m][si])) for m in IM)
+        return 0 if ok else 1
     if d.get("coexisting"):
         # rebuild the whole batch of handlers in the recorded order, then use the recorded one
         evs = [impl.make_evaluator({"input": it, "imetrics": im, "gmetrics": [], "table": tb, "std": sd}) for it, kind, im, tb, sd in d["coexisting"]]
